@@ -1,5 +1,5 @@
 From Coq Require Extraction ExtrOcamlBasic.
-From OxiVerif Require Import Base.Conv DD.Table DD.TableExtra DD.Sem Num.I64.
+From OxiVerif Require Import Base.Conv DD.Table DD.TableExtra DD.Sem Num.I64 DD.FamSpec DD.ZbddOps.
 Extraction Language OCaml.
 Extraction "model.ml" conv_anchor
   Table.sem_edge Table.wf_b TableExtra.terms_kind_b TableExtra.wf_full_b Table.perm_inverse_b Table.node_ok_b Table.unique_nodes_b
@@ -8,4 +8,8 @@ Extraction "model.ml" conv_anchor
   Sem.eval_bop Sem.lift1 Sem.lift2 Sem.ite_s Sem.const_s Sem.var_s Sem.cof Sem.exists_s Sem.forall_s Sem.unique_s
   Sem.restrict_s Sem.subst_s Sem.count_s Sem.cube_implies
   I64.i64_add I64.i64_sub I64.i64_mul I64.i64_div I64.i64_min I64.i64_max I64.i64_is_zero I64.i64_is_one
+  FamSpec.f_empty FamSpec.f_base FamSpec.f_singleton FamSpec.f_bin FamSpec.f_sub FamSpec.f_make_node
+  FamSpec.feq_b FamSpec.fam_bool FamSpec.fam_of
+  ZbddOps.zbdd_ok_b ZbddOps.zapply ZbddOps.zsubset_top ZbddOps.zsingleton ZbddOps.zmake_node
+  ZbddOps.zempty ZbddOps.zbase ZbddOps.zac_get ZbddOps.zac_add ZbddOps.znc_get ZbddOps.znc_add
   Table.mkSnap Table.mkNode Table.mkEdge Table.nlevels Table.edge_eqb.
